@@ -207,6 +207,18 @@ def saveFixed (maxLen A : Nat) (name signedValue : Str) (presented : Jar) :
   | .err e => .err e
   | .panic e => .panic e
 
+/-- `Clear` on a response that ALREADY carries the `Set-Cookie` lines `written` (same request: a
+    refresh saved the session, then validation failed; or a sign-out request that refreshed).  Since
+    the fix "do not keep session cookies written earlier in the response when the cookie store
+    clears the session" `dropWrittenSessionCookies` first removes every session cookie among them;
+    then a deletion is written for every PRESENTED session cookie. -/
+def clearAfter (name : Str) (written : List SetCookie) (presented : Jar) : List SetCookie :=
+  written.filter (fun c => !matchesSessionName name c.name) ++ clearStore name presented
+
+/-- the behaviour before that fix: what was written stays (kept for the regression witness) -/
+def clearAfterOld (name : Str) (written : List SetCookie) (presented : Jar) : List SetCookie :=
+  written ++ clearStore name presented
+
 /-- `Load` up to signature validation / decoding. -/
 def load (jar : Jar) (name : Str) : Option (Str × Str) := loadCookie jar name
 
@@ -215,6 +227,8 @@ def load (jar : Jar) (name : Str) : Option (Str × Str) := loadCookie jar name
 inductive JarOp where
   | save  : Str → JarOp
   | clear : JarOp
+  /-- a save and a clear writing into ONE response (the browser presented the same jar to both) -/
+  | saveClear : Str → JarOp
   deriving DecidableEq, Repr
 
 /-- One request/response round trip: the browser presents `jar`, the store answers, the
@@ -226,6 +240,10 @@ def stepWith (saveFn : Str → Jar → Outcome (List SetCookie)) (name : Str) (j
     | .ok cs => applySetCookies jar cs
     | _ => jar
   | .clear => applySetCookies jar (clearStore name jar)
+  | .saveClear v =>
+    match saveFn v jar with
+    | .ok cs => applySetCookies jar (clearAfter name cs jar)
+    | _ => applySetCookies jar (clearStore name jar)
 
 /-- history with the pre-fix `Save` (never deletes stale cookies) -/
 def runCurrent (maxLen A : Nat) (name : Str) (ops : List JarOp) (jar : Jar) : Jar :=
